@@ -73,7 +73,9 @@ fn main() {
          class + new RDATA), a clock grid (now = inception/expiration -2..+2, midpoints, +-2^31; windows \
          plain, across the u32 wrap, lengths 0,1,2^31-1,2^31,2^31+1) applied to the answer RRSIG and to the DNSKEY RRSIG, \
          and all op sequences of length 4 (quick) / 5 (thorough) over {validate x 4 worlds, validate via a clone of the \
-         handle, advance 1 s, jump to t0+99/100/101/301/1001} on one shared handle. Oracle: only-if acceptance predicate \
+         handle, advance 1 s, jump to t0+99/100/101/301/1001} on one shared handle; the same op sequences one step shorter for 13 handle CONFIGURATIONS \
+         (positive / negative validation-cache TTL ranges from {0..=0, 5..=10, 200..=400, 0..=1, 1000..=1000}, both, cache size 1) \
+         with signature lifetimes (100 s, 1000 s) below and above the configured minimum. Oracle: only-if acceptance predicate \
          (12 clauses, refpred.rs), applied PER RECORD to the RRset (same owner, CLASS, type) the returned record is a member of, on the mutated bytes with vref::sigref + ring at the time of EACH validate; TTL of Secure \
          records <= expiration - now. distinct_nontrivial = cases where the reference rejects with exactly ONE failing \
          clause (they tell the reference from the predicate without that clause).",
@@ -154,6 +156,15 @@ fn main() {
     }
     for (kind, alg, layout, narrow) in hist {
         blocks.push(Block::History(HistoryBlock::new(&gen::base(kind, alg, layout), depth, narrow)));
+    }
+    // the handle CONFIGURATION as a dimension of the histories: every configuration x all op
+    // sequences of length 3 (quick) / 4 (thorough), single-key and KSK+ZSK layouts
+    let cfgs = gen::handle_configs();
+    ctx.set("handle_configurations", json!(cfgs.iter().map(|c| c.tag()).collect::<Vec<_>>()));
+    for cfg in &cfgs {
+        for (layout, narrow) in [("L1", false), ("L2", true)] {
+            blocks.push(Block::History(HistoryBlock::new(&gen::base("A1", hickory_proto::dnssec::Algorithm::ED25519, layout), depth - 1, narrow).with_cfg(cfg.clone())));
+        }
     }
 
     let mut starts = vec![];
